@@ -292,9 +292,78 @@ def run_shard(spec):
         if len(samples) < 2 and stats["evaluations"] % 41 == 5:
             samples.append(case)
 
+    def handle_resource(mode, q):
+        """queries whose first segment is a resource: present (bytes flow into the transformation) or missing"""
+        from liquer.store import set_store, MemoryStore
+        from lqv import refinterp as R
+
+        case = {"mode": mode, "q": q, "resource": True}
+        env.mode = mode
+        viol = viol_factory(case)
+        st0 = MemoryStore()
+        st0.store("res/data.txt", b"RESDATA", {"x": 1})
+        st0.store("res/n.json", b"42", {})
+        set_store(st0)
+        env.ref.resource_lookup = lambda k: st0.data.get(k)
+        env._ref_interp.pop(q, None)
+        try:
+            out = env.interp(q)
+        finally:
+            env.ref.resource_lookup = None
+        if out is None:
+            return
+        pq = parse(q)
+        canon = pq.encode()
+        cache = None if mode == "none" else cachecfg.build(mode, scratch).cache
+        set_cache(cache if cache is not None else NoCache())
+        try:
+            st = Context().evaluate(q)
+        except Exception:
+            st = None
+        stats["evaluations"] += 1
+        env.count("resource_queries")
+        nontrivial.add(hashlib.sha1(repr(case).encode()).hexdigest()[:12])
+        if not out.ok:
+            env.count("missing_resource_queries")
+            if st is not None:
+                if not st.is_error:
+                    viol("returned.not_error", "query %r on a missing resource returned a state not marked as error" % q)
+                check_failure(q, st.metadata, "returned", viol, "|missing resource")
+                if cache is not None:
+                    cm = cache.get_metadata(canon)
+                    if cm is None:
+                        cm = cache.get_metadata(q)
+                    if cm is not None:
+                        check_failure(q, cm, "cache_copy", viol, "|missing resource")
+            return
+        if st is None or st.is_error:
+            viol("returned.error_for_present_resource", "query %r on a present resource failed" % q)
+            return
+        md = st.metadata
+        if md.get("query") != canon:
+            viol("returned.query", "resource query %r: metadata query %r, canonical %r" % (q, md.get("query"), canon))
+        if md.get("status") != "ready" and len(pq.segments) > 1:
+            viol("returned.status", "resource query %r: status %r" % (q, md.get("status")))
+        from liquer.state_types import type_identifier_of
+
+        if not R.equal(st.get(), out.value):
+            viol("returned.value", "resource query %r: value %s, expected %s" % (q, R.short(st.get()), R.short(out.value)))
+        if md.get("type_identifier") != type_identifier_of(st.get()):
+            viol("returned.type_identifier", "resource query %r: %r" % (q, md.get("type_identifier")))
+        if len(pq.segments) > 1:
+            cmds = md.get("commands") or []
+            if (cmds[-1] if cmds else None) != out.last_command:
+                viol("returned.commands", "resource query %r: last command %r want %r" % (q, cmds[-1] if cmds else None, out.last_command))
+
+    RESQ = ["res/data.txt/-/ident", "res/data.txt/-/ident/cat-x", "-R/res/data.txt", "res/n.json/-/cat-q/o.txt", "-R/res/data.txt/-/cat-a",
+            "res/missing.txt/-/ident", "-R/res/missing.txt", "nokey.txt/-/cat-x/ident", "-R/a/b/c.json/-/ident"]
+
     if "replay" in spec:
         w = spec["replay"]
-        handle(w["mode"], w["q"])
+        if w.get("resource"):
+            handle_resource(w["mode"], w["q"])
+        else:
+            handle(w["mode"], w["q"])
     else:
         mode = spec["mode"]
         rnd = random.Random("%s/C18/%s/%s" % (spec["seed"], mode, spec["rep"]))
@@ -303,6 +372,12 @@ def run_shard(spec):
         for _ in range(spec["n"]):
             q = g.top()
             handle(mode, q)
+        if not mode.startswith("storekey"):
+            for q in RESQ:
+                handle_resource(mode, q)
+            from liquer.store import set_store, MemoryStore
+
+            set_store(MemoryStore())
         for k, v in g.features.items():
             env.count("feature." + k, v)
     return {"evaluations": stats["evaluations"], "nontrivial": sorted(nontrivial),
@@ -317,7 +392,7 @@ def replay(spec):
 def finalize(m, tier, seed):
     inc = []
     for k in ["mode." + x for x in MODES] + ["failing_evaluations", "cache_copies_checked", "store_copies_checked", "feature.filename",
-                                              "feature.sub_evaluation", "feature.sub_evaluation.failing", "relabel_checks", "feature.link.relative", "feature.namespace", "feature.cmd.attr_up"]:
+                                              "feature.sub_evaluation", "feature.sub_evaluation.failing", "relabel_checks", "resource_queries", "missing_resource_queries", "feature.link.relative", "feature.namespace", "feature.cmd.attr_up"]:
         if not m["counters"].get(k):
             inc.append("coverage class %s empty" % k)
     return {"inconclusive": inc}
